@@ -193,6 +193,17 @@ var (
 	validTableParent = regexp.MustCompile(`^projects/[^/]+/instances/[^/]+$`)
 )
 
+// maxTableIDLen is the documented limit. Longer ids also outgrow the file names of persistent
+// storage ("<id>.table.proto"), whose write failures are only logged: such a table was acknowledged
+// and gone after a restart.
+const maxTableIDLen = 50
+
+// reservedTableID: ids that are the names persistent storage gives to other tables' definition files
+// ("t1.table.proto" is where the definition of "t1" lives; creating a table of that name removed it).
+func reservedTableID(id string) bool {
+	return strings.HasSuffix(id, ".table.proto") || strings.HasSuffix(id, ".table.proto.tmp")
+}
+
 func validParent(parent string) bool {
 	if !validTableParent.MatchString(parent) {
 		return false
@@ -206,7 +217,7 @@ func validParent(parent string) bool {
 }
 
 func (s *server) CreateTable(ctx context.Context, req *btapb.CreateTableRequest) (*btapb.Table, error) {
-	if !validTableID.MatchString(req.TableId) {
+	if !validTableID.MatchString(req.TableId) || len(req.TableId) > maxTableIDLen || reservedTableID(req.TableId) {
 		return nil, status.Errorf(codes.InvalidArgument, "invalid table id %q", req.TableId)
 	}
 	if !validParent(req.Parent) {
